@@ -281,6 +281,11 @@ def _parse_args(args: list[str] | None = None) -> tuple[Options, set[str], bool]
     sentinel_parser.add_argument(
         "--files-max-size", type=int, dest="files_max_size", default=_SENTINEL
     )
+    # The untracked options that have a short form must be known here as well, or a
+    # cluster such as `-is` is skipped as a whole and `-si` is rejected.
+    sentinel_parser.add_argument("-o", "--output")
+    sentinel_parser.add_argument("-p", "--plaintext", action="store_true")
+    sentinel_parser.add_argument("-i", "--inplace", action="store_true")
     sentinel_opts, _ = sentinel_parser.parse_known_args(args if args is not None else sys.argv[1:])
 
     explicit_flags: set[str] = set()
